@@ -248,6 +248,67 @@ def rand_leftcorner_grammar(rng, boolean=True):
     return {"S": rng.randrange(k), "nT": nT, "rules": rules}
 
 
+def rand_mutual_leftrec_grammar(rng, boolean=True):
+    """mutual LEFT recursion through 2-3 nonterminals (it survives the removal of unary cycles), each member with its own
+    further left corners, and start rules that reach different members of the cycle after different terminals"""
+    W = lambda: (True if boolean else fs(rng.choice(WEIGHTS[:5])))
+    k = rng.randint(2, 3)
+    nT = 3
+    t = lambda: ["T", rng.randrange(nT)]
+    Z = [k + 1 + j for j in range(rng.randint(1, 2))]      # extra left corners
+    S = k                                                   # start symbol
+    rules = []
+    for i in range(k):
+        rules.append([W(), i, [["N", (i + 1) % k], t()]])               # i -> (i+1) t   : left-recursive cycle
+        if rng.random() < 0.8:
+            rules.append([W(), i, [["N", rng.choice(Z)], t()][: rng.randint(1, 2)]])   # i -> Z [t]
+        if rng.random() < 0.5:
+            rules.append([W(), i, [t()]])
+    for z in Z:
+        rules.append([W(), z, [t()]])
+        if rng.random() < 0.3:
+            rules.append([W(), z, [t(), ["N", rng.randrange(k)]]])
+    for _ in range(rng.randint(2, 4)):
+        shape = rng.random()
+        if shape < 0.6:
+            rules.append([W(), S, [t(), ["N", rng.randrange(k)]]])       # S -> t i      : column 1 waits on member i only
+        elif shape < 0.8:
+            rules.append([W(), S, [["N", rng.randrange(k)], t()]])
+        else:
+            rules.append([W(), S, [t(), t(), ["N", rng.randrange(k)]]])
+    rng.shuffle(rules)
+    return {"S": S, "nT": nT, "rules": rules}
+
+
+def random_sentence(rng, g, maxdepth=6, maxlen=12):
+    """the yield of a random derivation from the start symbol (None if the start symbol derives nothing)"""
+    INF = 10 ** 6
+    rank = {}
+    for _ in range(len(g["rules"]) + 1):
+        for w, h, b in g["rules"]:
+            r = 1 + max([0] + [0 if k == "T" else rank.get(x, INF) for k, x in b])
+            if r < rank.get(h, INF):
+                rank[h] = r
+    if rank.get(g["S"], INF) >= INF:
+        return None
+
+    def expand(X, depth):
+        rs = [(w, h, b) for w, h, b in g["rules"] if h == X and all(k == "T" or rank.get(x, INF) < INF for k, x in b)]
+        if depth >= maxdepth:
+            best = min(1 + max([0] + [0 if k == "T" else rank[x] for k, x in b]) for w, h, b in rs)
+            rs = [r for r in rs if 1 + max([0] + [0 if k == "T" else rank[x] for k, x in r[2]]) == best]
+        w, h, b = rng.choice(rs)
+        out = []
+        for k, x in b:
+            out += [x] if k == "T" else expand(x, depth + 1)
+            if len(out) > 4 * maxlen:
+                break
+        return out
+
+    ys = expand(g["S"], 0)
+    return ys[:maxlen]
+
+
 def permute_rename(rng, g):
     """rule permutation + injective renaming of nonterminals (property-preserving)"""
     nts = nts_of(g)
